@@ -17,13 +17,40 @@ from .must import branch_atoms
 LEGACY = {0x66, 0x67, 0xF0, 0xF2, 0xF3, 0x2E, 0x36, 0x3E, 0x26, 0x64, 0x65}
 
 
-def classify(fn, el):
+WRITER_HELPERS = {}      # qualified name of an X86BufferWriter method -> Fn (set by the check before the rules run)
+_HELPER_KIND = {}
+
+
+def helper_kind(name):
+    """what a writer helper that is not one of the primitive emitters writes: 'rex' / 'ovr' / 'pp' / 'other' (by its body)"""
+    if name in _HELPER_KIND:
+        return _HELPER_KIND[name]
+    _HELPER_KIND[name] = "other"
+    g = WRITER_HELPERS.get(name)
+    if g is not None:
+        kinds = set()
+        for el in g.ex:
+            y = g.e(el)
+            if y and y["k"] in ("mcall", "call") and (y.get("cn") or "").startswith("emit"):
+                k = classify(g, el, inner=True)
+                if k:
+                    kinds.add(k)
+        for k in ("rex", "ovr", "pp", "fwait"):
+            if k in kinds:
+                _HELPER_KIND[name] = k
+                break
+    return _HELPER_KIND[name]
+
+
+def classify(fn, el, inner=False):
     x = fn.e(el)
-    if not x or x["k"] != "mcall" or not x.get("cn", "").startswith("emit"):
+    if not x or x["k"] not in ("mcall", "call") or not x.get("cn", "").startswith("emit"):
         return None
-    if "writer" not in fn.text(x.get("obj", 0)):
+    if not inner and "writer" not in fn.text(x.get("obj", 0)):
         return None
     cn = x["cn"]
+    if cn not in ("emit_segment_override", "emit_address_override", "emit_pp", "emit8", "emit8_if") and x.get("callee") in WRITER_HELPERS and not inner:
+        return helper_kind(x["callee"])
     a0 = x["args"][0] if x.get("args") else None
     a0x = fn.e(fn.strip(a0)) if a0 else None
     t0 = fn.text(a0) if a0 else ""
